@@ -6,7 +6,7 @@ export CARGO_NET_OFFLINE=true
 (cd engines/mirfacts && cargo build --offline --quiet 2>&1 | grep -v "^warning" | grep -v "^\s*$" || true)
 test -x engines/mirfacts/target/debug/mirfacts
 if [ -d engines/synfacts ]; then
-  cp /repo/Cargo.lock engines/synfacts/Cargo.lock 2>/dev/null || true
+  [ -f engines/synfacts/Cargo.lock ] || cp /repo/Cargo.lock engines/synfacts/Cargo.lock
   (cd engines/synfacts && cargo build --offline --quiet 2>&1 | grep -v "^warning" | grep -v "^\s*$" || true)
   test -x engines/synfacts/target/debug/synfacts
 fi
